@@ -22,11 +22,11 @@ CHECKS = {
    design_ref="§6 C07", technique="Lean 4 proof (no shared state) + tagged-uninitialised exact scalar run of the real templates",
    note="partial: real heap/stack pre-states, object relocation and threads are runtime behaviour not exhibited by the model; Eigen-internal scratch is trusted"),
  "C08": dict(category="proof",
-   text="Lean theorems restoreBox_spec / restore_after_setupLb / restore_after_setupUb (for every n and every finite/infinite pattern the descending swap loop puts packed slot t at variable idx t and exactly the fill value, 0 resp. +inf, at every variable without a finite bound; the packing produced by setup_lb_data/setup_ub_data is strictly increasing: packLoop_inv), step_in_cone / stepNumOp_in_cone / mainLoop_in_cone (strict positivity of every active slack and multiplier is an invariant of the fraction-to-boundary rule for EVERY direction and of the whole main loop at every exit and every iteration budget, every back end, every factorisation outcome), swapLoop_mem. Tie: wellFormedFails evaluated exactly on results equal to the implementation's for all 4^n bound patterns (n=2 all back ends and preconditioners, n=3), budgets 1,2 and re-solves with n_lb != n_ub.",
+   text="Lean theorems restoreBox_spec / restore_after_setupLb / restore_after_setupUb (for every n and every finite/infinite pattern the descending swap loop puts packed slot t at variable idx t and exactly the fill value, 0 resp. +inf, at every variable without a finite bound; the packing produced by setup_lb_data/setup_ub_data is strictly increasing: packLoop_inv), mehrotra_in_cone / initialPoint_in_cone (after the two Mehrotra-style shifts every active slack and multiplier of the initial point is strictly positive, under the guard that the shifted complementarity product is positive), step_in_cone / stepNumOp_in_cone / mainLoop_in_cone / solve_loop_in_cone (strict positivity is an invariant of the fraction-to-boundary rule for EVERY direction and of the whole main loop at every exit and every iteration budget, every back end, every factorisation outcome), swapLoop_mem. Tie: wellFormedFails evaluated exactly on results equal to the implementation's for all 4^n bound patterns (n=2 all back ends and preconditioners, n=3), budgets 1,2 and re-solves with n_lb != n_ub.",
    design_ref="§6 C08", technique="Lean 4 proof (index loop) + exhaustive bound-pattern enumeration at T=Q with an exact well-formedness predicate",
-   note="exact arithmetic: overflow to +-inf in double is outside the model; the initial point's Mehrotra shift is tied by the exact correspondence, its positivity is not a theorem; budgets > 2 need double precision"),
+   note="exact arithmetic: overflow to +-inf in double is outside the model; positivity of the *unscaled* results additionally needs positive (not only non-zero) Ruiz scalings, which is carried by the exact correspondence; budgets > 2 need double precision"),
  "C09": dict(category="proof",
-   text="Theorem phaseA_status_eq_info (+ loop structure) and exact evaluation of diagFails: after every solve of the real solver at T=Q, info.status/iter/primal_obj/dual_obj/duality_gap (and primal_inf/dual_inf for verdict statuses) are compared for exact equality with the quantities recomputed from the user's unscaled data at the returned point, incl. scale_cost=true.",
+   text="Theorems status_eq_info_status, iter_le_max_iter (every LoopOps) and solved_objectives (at SOLVED, for every back end and failure pattern: info.primal_obj and info.dual_obj are exactly the primal and dual objectives of the unscaled returned point for the user's data, cost scaling included, and primal_inf/dual_inf are the norms formed from the residuals of that same point) + exact evaluation of diagFails: after every solve of the real solver at T=Q, info.status/iter/primal_obj/dual_obj/duality_gap (and primal_inf/dual_inf for verdict statuses) are compared for exact equality with the quantities recomputed from the user's unscaled data at the returned point, incl. scale_cost=true.",
    design_ref="§6 C09", technique="Lean 4 proof + exact diagnostics predicate on exact-rational runs of the real templates",
    note="exact arithmetic; MAX_ITER primal_inf/dual_inf are not claimed (property restriction)"),
  "C10": dict(category="proof",
